@@ -36,7 +36,7 @@ ODD_LINES = [
     # hash names that hashlib knows but GLEP 74 does not (also ones whose hexdigest() needs an argument), for a file of the recorded size
     'DATA {p} {z} SHAKE_128 00', 'DATA {p} {z} shake_256 00', 'MISC {p} {z} SHA384 00 MD5 00', 'DATA {p} {z} sha1 00', 'DATA {p} {z} SM3 00', 'DATA {p} {z} BLAKE2b 00',
     # checksum values that are not hexadecimal / not ASCII, for a file of the recorded size (they are compared, never interpreted)
-    'DATA {p} {z} MD5 fad2\u00e9', 'DATA {p} {z} SHA1 \u0130\u1e9e SHA512 zz', 'MISC {p} {z} SHA256 \U0001f600',
+    'DATA {p} {z} MD5 fad2\u00e9', 'DATA {p} {z} SHA1 \u0130\u1e9e SHA512 zz', 'MISC {p} {z} SHA256 \U0001f600', 'DATA {p} {z} SHA1 \u00e9', 'DATA {p} {z} SHA512 d41d8cd98f00b204e9800998ecf8427\u00e9',
     '@IGNORE-MANIFEST', '@IGNORE-MANIFEST', '@IGNORE-MANIFEST-TOO',       # a sub-Manifest file that is IGNOREd (instead of / besides being registered)
 ]
 
